@@ -37,6 +37,24 @@ def run(fx, rep, tier):
     rule_overhead(fx, rep)
 
 
+def table_pass_in(fx, names):
+    """[(body, why)] for the transposition-table methods / closures among `names` that contain a loop or a bulk operation over
+    the slot vector"""
+    out = []
+    for nm in sorted(names):
+        b = fx.bodies[nm]
+        if "transposition_table::TranspositionTable" not in norm(nm) or b.kind not in ("AssocFn", "Closure"):
+            continue
+        live = b.live_blocks()
+        loops = any(i in b.reachable(j) for i in live for j in b.succ(i))
+        bulk = [norm(callee_name(t) or "").split("::")[-1] for bb, t in b.calls()
+                if norm(callee_name(t) or "").split("::")[-1] in ("fill", "for_each", "resize", "clear", "iter_mut", "chunks_mut", "chunks_exact_mut", "fill_with", "extend", "collect", "shrink_to_fit", "truncate", "retain", "into_iter", "iter") and
+                t["args"] and any(isinstance(x, tuple) and len(x) == 3 and x[0] == "field" and x[2] == "data" for x in walk(b.expr(t["args"][0], expand_named=True, at=bb)))]
+        if loops or bulk:
+            out.append((b, "a loop" if loops else f"`{bulk[0]}` over the slot vector"))
+    return out
+
+
 def rule_overhead(fx, rep):
     """C14-OVERHEAD. "After subtracting the configured move overhead": the value TimeStrategy::new subtracts is the
     `move_overhead` field of EngineOptions, so the configured value must survive until the search - who-may-write: the field is
@@ -478,6 +496,54 @@ def through_helper(fx, info, e):
     return e
 
 
+def inline_closure_call(fx, e):
+    """`capped(K)` for a local closure `|k| min(base.mul_f32(k), max)`: the closure's single return expression with its
+    parameter(s) replaced by the call's arguments and its captures by the captured values"""
+    import re as _re
+    from facts import resolve_captures
+    d = deep_strip(e)
+    if not (isinstance(d, tuple) and d and d[0] == "call" and isinstance(d[1], str) and len(d[2]) >= 1):
+        return e
+    direct = fx.body(d[1]) if "{closure#" in d[1] else None
+    if not (_re.search(r"Fn(Mut|Once)?(<[^>]*>)?>?::call(_mut|_once)?$", d[1]) or (direct is not None and direct.kind == "Closure")):
+        return e
+    cl = deep_strip(d[2][0])
+    if not (isinstance(cl, tuple) and cl and cl[0] == "agg" and str(cl[1]).startswith("closure:")):
+        return e
+    cb = fx.body(str(cl[1])[len("closure:"):])
+    rest = [deep_strip(a) for a in d[2][1:]]
+    if len(rest) == 1 and isinstance(rest[0], tuple) and rest[0] and rest[0][0] == "agg" and rest[0][1] == "tuple":
+        args = rest[0]
+    else:
+        args = ("agg", "tuple", tuple(d[2][1:]))
+    if cb is None:
+        return e
+    rets = [r for (c, r, _l) in decision_paths(cb, 8) if r is not None]
+    if len(rets) != 1:
+        return e
+
+    def sub(x):
+        if not isinstance(x, tuple) or not x:
+            return x
+        if x[0] == "arg" and isinstance(x[1], int) and x[1] >= 2 and x[1] - 2 < len(args[2]):
+            return args[2][x[1] - 2]
+        return tuple(sub(y) if isinstance(y, tuple) else y for y in x)
+    caps = cl[2]
+
+    def cap(x):
+        # `(closure env).k` -> the captured value as written at the place the closure is built (the caller's terms)
+        if not isinstance(x, tuple) or not x:
+            return x
+        if x[0] == "field" and str(x[2]).isdigit() and int(x[2]) < len(caps):
+            base = x[1]
+            while isinstance(base, tuple) and base and base[0] in ("deref", "ref"):
+                base = base[1]
+            if isinstance(base, tuple) and base[:2] == ("arg", 1):
+                return caps[int(x[2])]
+        return tuple(cap(y) if isinstance(y, tuple) else y for y in x)
+    return sub(cap(rets[0])) if caps else sub(resolve_captures(fx, cb, rets[0]))
+
+
 def rule_cap(fx, rep, new, info):
     ok = True
     n = 0
@@ -494,7 +560,7 @@ def rule_cap(fx, rep, new, info):
         n += 1
         good = len(defs) == 1
         if good:
-            defs = [(defs[0][0], through_helper(fx, info, defs[0][1]))]
+            defs = [(defs[0][0], inline_closure_call(fx, through_helper(fx, info, defs[0][1])))]
         mn = is_min(defs[0][1]) if good else None
         good = good and mn is not None
         a = c = None
